@@ -22,7 +22,7 @@ def one(d):
             return sid, prop, "does-not-apply", []
         vdir = os.path.join(tmp, "verif"); os.makedirs(os.path.join(vdir, "evidence"))
         shutil.copy(os.path.join(VERIF, "known_findings.json"), vdir)
-        r = subprocess.run([os.path.join(VERIF, "bin", "yverif"), "checkall", "-repo", root, "-verif", vdir], env=ENV, capture_output=True, text=True)
+        r = subprocess.run([os.environ.get("YVERIF_BIN", os.path.join(VERIF, "bin", "yverif")), "checkall", "-repo", root, "-verif", vdir], env=ENV, capture_output=True, text=True)
         caught, cur, reports = [], "", {}
         for l in r.stdout.splitlines():
             if l.startswith("property="):
